@@ -4,7 +4,7 @@ occupied per-connection slot, and the PUBCOMP branch must not clear state belong
 own-pubrel: release_publish writes exactly one PUBREL carrying its argument's id on the path where
 the hand-off succeeded, Drop for PublishReceived releases iff the Option was not taken and
 release(self) takes it; requeue: the PUBREC branch re-queues (same id, AckType::Complete) and keeps
-the id reserved. All delivery orders are not decided (the violated clause is order independent). own-pubrel (continued): from the Some edge of the keyed receiver removal no return is reachable without the PUBREL write; release() completes only through release_publish.
+the id reserved. All delivery orders are not decided (the violated clause is order independent). own-pubrel (continued): from the Some edge of the keyed receiver removal no return is reachable without the PUBREL write; release() completes only through release_publish. own-pubrel (continued): a PublishReceived receipt is constructed only in the async part of the send, after the acknowledgement was awaited.
 """
 from facts import *
 from disp import agg_sites
